@@ -61,6 +61,8 @@ inductive Expr where
   | sliceB (a lo hi : Expr)                 -- `a[lo:hi]` of a byte slice (a missing bound is printed as 0 / `len(a)`)
   | le64 (a : Expr)                         -- `binary.LittleEndian.Uint64(a)`
   | appendB (a b : Expr)                    -- `append(a, b...)` of byte slices (the new content of the slice)
+  | idxB (a i : Expr)                       -- `a[i]` of a byte slice
+  | nilB                                    -- `nil` as a byte slice
   deriving Repr, Inhabited
 
 inductive Stmt where
@@ -78,12 +80,18 @@ inductive Stmt where
   | cont
   | ret (es : List Expr)
   | call (recv fn : String) (args : List Expr)      -- `recv.fn(args)`, result discarded
+  | callAssign (targets : List String) (recv fn : String) (ptrs : List String) (args : List Expr)
+      -- `t1, t2 = recv.fn(ptrs…, args…)` (`_` ignores a result); `ptrs` are the pointer-to-struct arguments, by name
+  | retCall (recv fn : String) (ptrs : List String) (args : List Expr)   -- `return recv.fn(ptrs…, args…)`
+  | rangeIB (iv v : String) (e : Expr) (body : List Stmt)   -- `for iv, v := range e { body }`, `e` a byte slice
   deriving Repr, Inhabited
 
 structure FunDef where
   recv   : String            -- name of the pointer receiver
   params : List String
   body   : List Stmt
+  fields : List String := ["off", "addNext", "cur", "t", "lim"]   -- the receiver's fields (flattened); default: an `Iter`
+  ptrParams : List (String × List String) := []   -- pointer-to-struct parameters with their fields (aliased with the caller's)
   deriving Repr, Inhabited
 
 /-- variable store: association list, last write first -/
@@ -147,6 +155,12 @@ def binop (op : BinOp) (a b : Val) : Option Val :=
   | .ge, .u64 x, .u64 y => some (.bool (x ≥ y))
   | .eq, .u8 x, .u8 y => some (.bool (x == y))
   | .ne, .u8 x, .u8 y => some (.bool (x != y))
+  | .and, .u8 x, .u8 y => some (.u8 (x &&& y))
+  | .or,  .u8 x, .u8 y => some (.u8 (x ||| y))
+  | .lt, .u8 x, .u8 y => some (.bool (x < y))
+  | .le, .u8 x, .u8 y => some (.bool (x ≤ y))
+  | .gt, .u8 x, .u8 y => some (.bool (x > y))
+  | .ge, .u8 x, .u8 y => some (.bool (x ≥ y))
   | .eq, .bool x, .bool y => some (.bool (x == y))
   | .ne, .bool x, .bool y => some (.bool (x != y))
   | _, _, _ => none
@@ -239,6 +253,17 @@ def evalE (s : St) : Expr → EOut
        | o => o)
     | .val _ => .stuck "append operand"
     | o => o
+  | .nilB => .val (.bytes #[])
+  | .idxB a i =>
+    match evalE s a with
+    | .val (.bytes b) =>
+      (match evalE s i with
+       | .val (.int k) => if 0 ≤ k ∧ k < b.size then .val (.u8 (b.getD k.toNat 0)) else .panic
+       | .val (.u64 k) => if k.toNat < b.size then .val (.u8 (b.getD k.toNat 0)) else .panic
+       | .val _ => .stuck "index type"
+       | o => o)
+    | .val _ => .stuck "index operand"
+    | o => o
   | .le64 a =>
     match evalE s a with
     | .val (.bytes b) => if b.size < 8 then .panic else .val (.u64 (leU64 b))
@@ -296,6 +321,40 @@ def copyFields (from_ : Env) (fromPrefix : String) (to : Env) (toPrefix : String
 def bindParams : List String → List Val → Env → Option Env
   | [], [], e => some e
   | p :: ps, v :: vs, e => bindParams ps vs (e.set p v)
+  | _, _, _ => none
+
+/-- variables shared by every function of one call tree: the buffers all iterators of one `ParsedJson` point at -/
+def globalVars : List String := ["Strings.B", "Message"]
+
+/-- copy the listed variables that exist in `from_` -/
+def copyGlobals (from_ to : Env) : List String → Env
+  | [] => to
+  | g :: r => match from_.get g with
+    | some v => copyGlobals from_ (to.set g v) r
+    | none => copyGlobals from_ to r
+
+/-- pointer-to-struct arguments: the callee's parameter `p` aliases the caller's variable `a`; fields copied in … -/
+def copyPtrs (caller callee : Env) : List String → List (String × List String) → Option Env
+  | [], [] => some callee
+  | a :: as, (p, fs) :: ps =>
+    match copyFields caller a callee p fs with
+    | some e' => copyPtrs caller e' as ps
+    | none => none
+  | _, _ => none
+
+/-- … and back -/
+def copyPtrsBack (callee caller : Env) : List String → List (String × List String) → Option Env
+  | [], [] => some caller
+  | a :: as, (p, fs) :: ps =>
+    match copyFields callee p caller a fs with
+    | some e' => copyPtrsBack callee e' as ps
+    | none => none
+  | _, _ => none
+
+/-- bind returned values to the targets (`_` ignores one) -/
+def assignTargets : List String → List Val → Env → Option Env
+  | [], [], e => some e
+  | t :: ts, v :: vs, e => assignTargets ts vs (if t == "_" then e else e.set t v)
   | _, _, _ => none
 
 def isOneOf (v : Val) : List Val → Bool
@@ -407,6 +466,21 @@ def exec1 (funs : String → Option FunDef) : (fuel : Nat) → Stmt → St → O
     | .val (.bytes b) => execRange funs fuel v b.toList body s
     | .val _ => .stuck "range operand"
     | o => ofE o
+  | fuel, .rangeIB iv v e body, s =>
+    match evalE s e with
+    | .val (.bytes b) => execRangeI funs fuel iv v 0 b.toList body s
+    | .val _ => .stuck "range operand"
+    | o => ofE o
+  | 0, .callAssign targets recv fn ptrs args, s => .diverge
+  | fuel + 1, .callAssign targets recv fn ptrs args, s =>
+    match callFun funs fuel recv fn ptrs args s with
+    | .ret s' vs =>
+      (match assignTargets targets vs s'.env with
+       | some e => .normal { s' with env := e }
+       | none => .stuck "result arity")
+    | o => o
+  | 0, .retCall recv fn ptrs args, s => .diverge
+  | fuel + 1, .retCall recv fn ptrs args, s => callFun funs fuel recv fn ptrs args s
   | fuel, .brk, s => .brk s
   | fuel, .cont, s => .cont s
   | fuel, .ret es, s =>
@@ -445,6 +519,55 @@ def execRange (funs : String → Option FunDef) : (fuel : Nat) → String → Li
     | .brk s' => .normal s'
     | o => o
 termination_by fuel _ xs body _ => (fuel, sizeOf body, xs.length + 3)
+
+/-- `range` with index -/
+def execRangeI (funs : String → Option FunDef) : (fuel : Nat) → String → String → Nat → List UInt8 → List Stmt → St → Out
+  | fuel, iv, v, k, [], body, s => .normal s
+  | fuel, iv, v, k, x :: xs, body, s =>
+    match exec funs fuel body { s with env := (s.env.set iv (.int k)).set v (.u8 x) } with
+    | .normal s' | .cont s' => execRangeI funs fuel iv v (k + 1) xs body s'
+    | .brk s' => .normal s'
+    | o => o
+termination_by fuel _ _ _ xs body _ => (fuel, sizeOf body, xs.length + 3)
+
+/-- run `recv.fn(args)`: the callee's frame holds the receiver's fields (as listed by the callee), the parameters and
+    the shared buffers; afterwards fields and buffers are copied back.  Outcome `.ret s vs`: the caller's state after the
+    call and the returned values. -/
+def callFun (funs : String → Option FunDef) : (fuel : Nat) → String → String → List String → List Expr → St → Out
+  | fuel, recv, fn, ptrs, args, s =>
+    match funs fn with
+    | none => .stuck ("unknown function " ++ fn)
+    | some fd =>
+      match evalEs s args with
+      | .error o => ofE o
+      | .ok vs =>
+        match copyFields s.env recv [] fd.recv fd.fields with
+        | none => .stuck "receiver"
+        | some e0 =>
+          match copyPtrs s.env e0 ptrs fd.ptrParams with
+          | none => .stuck "pointer arguments"
+          | some e0' =>
+          match bindParams fd.params vs (copyGlobals s.env e0' globalVars) with
+          | none => .stuck "arity"
+          | some e1 =>
+            match exec funs fuel fd.body { env := e1, tape := s.tape } with
+            | .ret s' rs =>
+              (match copyFields s'.env fd.recv s.env recv fd.fields with
+               | some e2 =>
+                 (match copyPtrsBack s'.env e2 ptrs fd.ptrParams with
+                  | some e3 => .ret { env := copyGlobals s'.env e3 globalVars, tape := s'.tape } rs
+                  | none => .stuck "pointer arguments back")
+               | none => .stuck "receiver back")
+            | .normal s' =>
+              (match copyFields s'.env fd.recv s.env recv fd.fields with
+               | some e2 =>
+                 (match copyPtrsBack s'.env e2 ptrs fd.ptrParams with
+                  | some e3 => .ret { env := copyGlobals s'.env e3 globalVars, tape := s'.tape } []
+                  | none => .stuck "pointer arguments back")
+               | none => .stuck "receiver back")
+            | .brk _ | .cont _ => .stuck "break outside loop"
+            | o => o
+termination_by fuel _ _ _ _ _ => (fuel + 1, 0, 0)
 
 def execCases (funs : String → Option FunDef) : (fuel : Nat) → Val → List (List Expr × List Stmt) → List Stmt → St → Out
   | fuel, v, [], dflt, s => exec funs fuel dflt s
